@@ -229,21 +229,21 @@ literal (Lemmas/TokEquiv.lean). -/
 
 /-- tests/source/structs.rs:274 `pub(in self) struct Foo{}`, tests/source/closure.rs:21
 `|trivial| { closure() }`, tests/source/match.rs:488 (leading `|`), tests/source/issue-945.rs:3
-(`default unsafe extern "C" fn`), with a trailing comma, an empty `where`, an empty generic list, a
+(`default async extern "C" fn`), with a trailing comma, an empty `where`, an empty generic list, a
 redundant nested parenthesis and a `return` arm in a block added -/
-def exIn : List Tok := lexEx (chars% "pub ( in self ) struct Foo { } impl Baz { default unsafe extern \"C\" fn foo < 'a , > ( & 'a mut self , ) -> u32 where { let unblock_me = | trivial | { closure ( ) } ; match x { Foo :: A => println ! ( \"No\" ) , | Foo :: D => { return g :: < > ( ( 2.0 ) , ) ; } , } } }")
+def exIn : List Tok := lexEx (chars% "pub ( in self ) struct Foo { } impl Baz { default async extern \"C\" fn foo < 'a , > ( & 'a mut self , ) -> u32 where { let unblock_me = | trivial | { closure ( ) } ; match x { Foo :: A => println ! ( \"No\" ) , | Foo :: D => { return g :: < > ( ( 2.0 ) , ) ; } , } } }")
 
 /-- what rustfmt prints for it (token-wise) -/
-def exOut : List Tok := lexEx (chars% "pub ( self ) struct Foo { } impl Baz { default unsafe extern \"C\" fn foo < 'a > ( & 'a mut self ) -> u32 { let unblock_me = | trivial | closure ( ) ; match x { Foo :: A => println ! ( \"No\" ) , Foo :: D => return g ( 2.0 ) , } } }")
+def exOut : List Tok := lexEx (chars% "pub ( self ) struct Foo { } impl Baz { default async extern \"C\" fn foo < 'a > ( & 'a mut self ) -> u32 { let unblock_me = | trivial | closure ( ) ; match x { Foo :: A => println ! ( \"No\" ) , Foo :: D => return g ( 2.0 ) , } } }")
 
 /-- the same with the `mut` of the receiver dropped -/
-def exBadMut : List Tok := lexEx (chars% "pub ( self ) struct Foo { } impl Baz { default unsafe extern \"C\" fn foo < 'a > ( & 'a self ) -> u32 { let unblock_me = | trivial | closure ( ) ; match x { Foo :: A => println ! ( \"No\" ) , Foo :: D => return g ( 2.0 ) , } } }")
+def exBadMut : List Tok := lexEx (chars% "pub ( self ) struct Foo { } impl Baz { default async extern \"C\" fn foo < 'a > ( & 'a self ) -> u32 { let unblock_me = | trivial | closure ( ) ; match x { Foo :: A => println ! ( \"No\" ) , Foo :: D => return g ( 2.0 ) , } } }")
 
 /-- the same with the modifier `default` dropped -/
-def exBadDefault : List Tok := lexEx (chars% "pub ( self ) struct Foo { } impl Baz { unsafe extern \"C\" fn foo < 'a > ( & 'a mut self ) -> u32 { let unblock_me = | trivial | closure ( ) ; match x { Foo :: A => println ! ( \"No\" ) , Foo :: D => return g ( 2.0 ) , } } }")
+def exBadDefault : List Tok := lexEx (chars% "pub ( self ) struct Foo { } impl Baz { async extern \"C\" fn foo < 'a > ( & 'a mut self ) -> u32 { let unblock_me = | trivial | closure ( ) ; match x { Foo :: A => println ! ( \"No\" ) , Foo :: D => return g ( 2.0 ) , } } }")
 
 /-- the same with the lifetime altered -/
-def exBadLt : List Tok := lexEx (chars% "pub ( self ) struct Foo { } impl Baz { default unsafe extern \"C\" fn foo < 'a > ( & 'b mut self ) -> u32 { let unblock_me = | trivial | closure ( ) ; match x { Foo :: A => println ! ( \"No\" ) , Foo :: D => return g ( 2.0 ) , } } }")
+def exBadLt : List Tok := lexEx (chars% "pub ( self ) struct Foo { } impl Baz { default async extern \"C\" fn foo < 'a > ( & 'b mut self ) -> u32 { let unblock_me = | trivial | closure ( ) ; match x { Foo :: A => println ! ( \"No\" ) , Foo :: D => return g ( 2.0 ) , } } }")
 
 /-- the hypotheses of `equiv_sound` hold of a non-trivial accepted pair -/
 example : equiv {} exIn exOut = true ∧ NoR exIn ∧ NoR exOut ∧ exIn ≠ exOut ∧
